@@ -1137,6 +1137,8 @@ impl ExpressionPredicate {
                 }
             }
             (Value::String(a), Value::String(b)) => Some(a.cmp(b) as i32),
+            // false < true, as in the range path and the zone maps
+            (Value::Bool(a), Value::Bool(b)) => Some(a.cmp(b) as i32),
             (Value::Int64(a), Value::Float64(b)) => {
                 let af = *a as f64;
                 if af < *b {
